@@ -13,7 +13,7 @@ func init() {
 	propFuncs["C03"] = func(a *Analysis, r *Registry) { propMWU(a, r, "C03") }
 	propInfos["C01"] = &PropInfo{
 		Level:   "other",
-		Explain: "Structural necessary conditions decided statically (DESIGN.md §5 C01): engine B on MannWhitneyUTest — the rank pass as a system of recurrences matched by role (mid-rank (first+last)/2, R1 += rank*nx1, tie entry last-first+1, hasTies), U1 = R1 - n1(n1+1)/2, U2 = n1 n2 - U1; labeledMerge's copy loops write value and label at the same output index with label 1 for x1 and 2 for x2; in the exact branch the distribution object is UDist{n1,n2,T} of this call and P is CDF(U1) for Less, 1-CDF(U1-c) with 0<c<=Step for Greater (the only offsets for which the complement is Pr[U'>=U] on a lattice of spacing Step), min(1, 2 min(lower, upper)) for Differs; the alternative switch is exhaustive; the all-equal guard precedes the tails.",
+		Explain: "Structural necessary conditions decided statically (DESIGN.md §5 C01): engine B on MannWhitneyUTest — the rank pass as a system of recurrences matched by role (mid-rank (first+last)/2, R1 += rank*nx1, tie entry last-first+1, hasTies), U1 = R1 - n1(n1+1)/2, U2 = n1 n2 - U1; labeledMerge's copy loops write value and label at the same output index with label 1 for x1 and 2 for x2; in the exact branch the distribution object is UDist{n1,n2,T} of this call and P is CDF(U1) for Less, 1-CDF(U1-c) with 0<c<=Step for Greater (the only offsets for which the complement is Pr[U'>=U] on a lattice of spacing Step), min(1, 2 min(lower, upper)) for Differs; the alternative switch is exhaustive; the all-equal guard precedes the tails. Added after the mutation sweep (DESIGN §13): labeledMerge's merge discipline (input counters advance exactly when their element is copied, output counter every iteration, loops run exactly while their inputs have elements, the smaller head is taken, both inputs drained; three-loop and one-loop shapes) and the rank loop's condition.",
 		Assume:  []string{"A4 reals", "sort.Float64s sorts ascending", "UDist.CDF is the exact distribution function (structural part under C02)"},
 		Undec:   []string{"that UDist.CDF returns the exact permutation probability (see C02)", "behaviour of the sort", "floating-point rounding of U for very large ranks"},
 	}
